@@ -1,5 +1,6 @@
 import PallasVerif.Stream
 import PallasVerif.Model.Hash
+import PallasVerif.Model.Blake2bArray
 /-! stream `hash` (C10): Hasher / Hash<N> codecs / nonces. Stateless.
     ops: `selftest` | `chunks <bits> <hex>*` | `hash <bits> <hex>` | `tagged <bits> <tag> <hex>` |
     `cbor <bits> <tag|-> <tok>*` | `tohex <hex>` | `fromstr <n> <hex of the string's UTF-8>` |
@@ -47,7 +48,8 @@ def step (_ : Unit) (toks : List String) : Unit × String :=
   | ["selftest"] => "ok " ++ Tok.showBool selfTest
   | "chunks" :: bits :: chunks =>
     match Tok.nat? bits, parseAll Tok.unhex chunks with
-    | some bits, some cs => okHex (finalize (cs.foldl update (hasherNew bits)))
+    -- the array-level transcription of cryptoxide's context (Model/Blake2bArray.lean)
+    | some bits, some cs => okHex (finalizeMut (cs.foldl updateMut (initA (bits / 8))))
     | _, _ => "bad-op"
   | ["hash", bits, d] =>
     match Tok.nat? bits, Tok.unhex d with
